@@ -54,6 +54,12 @@ ASSUMPTIONS = [
     "class 'read-before-attach-finished': the object is built with TorConfig(proto) (what from_protocol() does) or as a "
     "detached TorConfig() that is attach_protocol()'d, and options are read under any spelling before / while it attaches "
     "(any outcome accepted then); after the attach every spelling must resolve",
+    "step 'alias': one list option is assigned the object read from another list option of the same kind and saved; both "
+    "must then behave as independent tracked lists (probes on either, also after a CONF_CHANGED for the source)",
+    "step 'held_edit': the application keeps the list object it read, edits it (pending), a CONF_CHANGED names the option "
+    "(reporting the pending value itself, or another one), and the application edits the same object again: that object "
+    "is the pending value, so the next save must carry all its elements; editing a list object that is NOT pending after "
+    "an event replaced the view is left open by the statement and not generated",
     "class 'during-attach': CONF_CHANGED events are delivered between the GETCONF round trips of the attach (before or "
     "after the reply of the k-th GETCONF), for options already fetched and not yet fetched; the finished view is compared "
     "with what Tor holds then",
@@ -79,6 +85,7 @@ FLOORS = {
     "quick": {"evaluations": 300, "bootstrap_reads_compared": 5000, "events_delivered": 300, "event_reads_compared": 4000,
               "tracking_probes": 250, "name_lookups_compared": 10000, "socks_endpoint_checks": 600,
               "attach_events_delivered": 100, "early_probe_reads": 300, "reads_compared_with_unprobed_attach": 1000, "events_after_rejected_save": 60, "events_after_accepted_save": 30,
+              "assigned_from_other_option": 30, "held_object_edits": 40,
               "reach:txtorcon.torconfig:TorConfig._conf_changed": 400,
               "reach:txtorcon.torconfig:TorConfig._do_setup": 300,
               "reach:txtorcon.torconfig:TorConfig._get_defaults": 300},
@@ -217,6 +224,24 @@ def gen_save_event(rnd, table, echo, i):
     return st
 
 
+def gen_alias(rnd, table, i):
+    """X = cfg.Y for two list options of the same kind: afterwards both must stay independent, tracked lists"""
+    rnd = gen.rnd_for("alias", i, repr(sorted(o["name"] for o in table)), rnd.random() if False else 0)
+    by = {}
+    for o in table:
+        if CT.is_listy(o["type"]):
+            by.setdefault(CT.kind_of(o["type"]), []).append(o)
+    kinds = [k for k, v in by.items() if len(v) >= 2]
+    if not kinds:
+        return None
+    x, y = rnd.sample(by[rnd.choice(sorted(kinds))], 2)
+    return {"op": "alias", "dst": x["name"], "dst_name": CT.anycase(rnd, x["name"]),
+            "src": y["name"], "src_name": CT.anycase(rnd, y["name"]),
+            "order": rnd.choice([["dst"], ["dst", "src"], ["src", "dst"], ["dst", "event-src", "dst"]]),
+            "values": [gen_probe_value(rnd, x, 500 + i), gen_probe_value(rnd, y, 501 + i), gen_probe_value(rnd, x, 502 + i)],
+            "items": [[y["name"], v] for v in CT.gen_values(rnd, y["type"], rnd.choice(["single", "multi"]))]}
+
+
 def gen_case(rnd, mode):
     if mode in ("boot", "attach"):
         table = CT.gen_table(rnd, every_type=rnd.random() < 0.7)
@@ -259,11 +284,23 @@ def gen_case(rnd, mode):
     scalars = [o for o in table if not CT.is_listy(o["type"])]
     for i in range(nsteps):
         r = rnd.random()
-        if r < 0.5:
+        if r < 0.45:
             case["steps"].append(gen_event(rnd, table))
-        elif r < 0.66:
+        elif r < 0.58:
             case["steps"].append(gen_save_event(rnd, table, case["echo"], 200 + i))
-        elif r < 0.87 and listy:
+        elif r < 0.66 and gen_alias(rnd, table, 300 + i):
+            case["steps"].append(gen_alias(rnd, table, 300 + i))
+        elif r < 0.75 and listy:
+            # the application keeps the list it read, edits it, a CONF_CHANGED names the option, it edits the
+            # same object again and saves
+            o = rnd.choice(listy)
+            st = {"op": "held_edit", "opt": o["name"], "name": CT.anycase(rnd, o["name"]),
+                  "first": gen_probe_value(rnd, o, 400 + 2 * i), "second": gen_probe_value(rnd, o, 401 + 2 * i),
+                  "event": rnd.choice(["same", "same", "other"])}
+            vals = CT.gen_values(rnd, o["type"], rnd.choice(["single", "multi"]))
+            st["items"] = [[o["name"], v] for v in vals]
+            case["steps"].append(st)
+        elif r < 0.9 and listy:
             o = rnd.choice(listy)
             case["steps"].append({"op": "cycle", "opt": o["name"], "name": CT.anycase(rnd, o["name"]),
                                   "value": gen_probe_value(rnd, o, 100 + i)})
@@ -497,6 +534,128 @@ class Run(object):
         self.boot_touch[n] = None
         self.echoed[n] = self.case["echo"]
 
+    # -- X = cfg.Y, then in-place edits of either ------------------------------------------
+    def alias(self, st):
+        cfg, tor, link, rec = self.cfg, self.tor, self.link, self.rec
+        x, y = st["dst"], st["src"]
+        if self.hidden_state(x) or self.hidden_state(y):
+            return
+        kind = CT.kind_of(self.table[x]["type"])
+        cls = kind + "+assigned-from-another-option"
+        try:
+            if not list(self.read(st["src_name"])):
+                rec.count("alias_steps_skipped_empty_source")     # assigning [] is C10's emptied-list known finding
+                return
+            setattr(cfg, st["dst_name"], self.read(st["src_name"]))      # the very object the view returned
+            cfg.save()
+        except Exception as e:
+            self.V("edit-save-raised-" + type(e).__name__, cls, {"step": st, "exc": repr(e)})
+            self.flush()
+        link.pump()
+        rec.count("assigned_from_other_option")
+        self.event_touch([x], x, "+assigned-from-another-option")
+        self.logged("save", cls)
+        if cfg.needs_save():
+            self.V("needs-save-after-ack", cls, {"option": x})
+        self.check_reads("event" if self.case["echo"] else "save", "save_reads_compared")
+        self.flush()
+        vi = 0
+        for what in st["order"]:
+            if what == "event-src":
+                changed = tor.external_change([(k, v) for k, v in st["items"]])
+                link.pump()
+                if changed:
+                    rec.count("events_delivered")
+                    self.event_touch(changed)
+                self.logged("event", cls)
+                self.check_reads("event", "event_reads_compared")
+                self.flush()
+                continue
+            n, sp = (x, st["dst_name"]) if what == "dst" else (y, st["src_name"])
+            self.touch[n] = self.touch[n].split("+aliased")[0] + "+aliased-" + what
+            self.probe(n, sp, st["values"][vi], "alias")
+            vi += 1
+            self.flush()
+            self.check_reads("event" if self.case["echo"] else "save", "save_reads_compared")
+            self.flush()
+
+    # -- the application keeps the list object it read across a CONF_CHANGED ---------------
+    def held_edit(self, st):
+        cfg, tor, link, rec = self.cfg, self.tor, self.link, self.rec
+        n, o = st["opt"], self.table[st["opt"]]
+        if self.hidden_state(n):
+            return
+        kind = CT.kind_of(o["type"])
+        cls = "%s+event-%s" % (kind, "equal-to-pending" if st["event"] == "same" else "other-value")
+        before = CT.ref_read(o["type"], tor.conf.get(n), self.dflt(n))
+        try:
+            held = self.read(st["name"])
+            held.append(st["first"])
+        except Exception as e:
+            self.V("list-edit-raised-" + type(e).__name__, cls, {"option": n, "exc": repr(e)})
+            self.flush()
+        if not cfg.needs_save():
+            self.V("list-untracked-after-" + ("bootstrap" if self.touch[n] == self.boot_touch[n] else "event"), kind,
+                   {"option": n, "defined_by": self.touch[n]})
+            self.flush()
+        pend = before + [st["first"]]
+        if st["event"] == "same":
+            items = [(n, ",".join(pend))] if kind == "commalist" else [(n, v) for v in pend]
+        else:
+            items = [(k, v) for k, v in st["items"]]
+        changed = tor.external_change(items)
+        link.pump()
+        if changed:
+            rec.count("events_delivered")
+        self.logged("event", cls)
+        # the held object is the pending value: a further edit of it belongs to what the next save carries
+        try:
+            held.append(st["second"])
+        except Exception as e:
+            self.V("list-edit-raised-" + type(e).__name__, cls, {"option": n, "exc": repr(e)})
+            self.flush()
+        rec.count("held_object_edits")
+        want = pend + [st["second"]]
+        if not cfg.needs_save():
+            self.V("held-list-edit-lost", cls, {"option": n, "want": want, "what": "needs_save() is false"})
+            self.flush()
+        n0 = len(link.transport.writes)
+        try:
+            cfg.save()
+        except Exception as e:
+            self.V("save-raised-" + type(e).__name__, cls, {"option": n, "exc": repr(e)})
+            self.flush()
+        data = b"".join(d for _, d in link.transport.writes[n0:])
+        link.pump()
+        self.logged("save", cls)
+        line = data.decode("latin1")
+        items = None
+        if data.endswith(b"\r\n") and data.count(b"\r\n") == 1 and line.upper().startswith("SETCONF "):
+            try:
+                items = kvline.parse(line[8:-2])
+            except kvline.KvError:
+                items = None
+        if items is None:
+            self.V("edit-save-not-one-setconf", cls, {"option": n, "written": data})
+            self.flush()
+        got = [v for k, v in items if tor.conf.canon(k) == n]
+        others = sorted({tor.conf.canon(k) or k for k, v in items} - {n})
+        if kind == "commalist":
+            got = [v for v in got if v not in (None, "")]
+            good = got == want or got == [",".join(want)]
+        else:
+            good = got == want and tor.conf.get(n) == want
+        if not good:
+            self.V("held-list-edit-lost", cls, {"option": n, "line": line, "want": want, "tor_holds": tor.conf.get(n)})
+        if others:
+            self.V("edit-save-names-other-options", cls, {"option": n, "line": line, "others": others})
+        if cfg.needs_save():
+            self.V("needs-save-after-ack", cls, {"option": n})
+        self.event_touch([n], n, "" if self.case["echo"] else "+own-save")
+        self.flush()
+        self.check_reads("event" if self.case["echo"] else "save", "save_reads_compared")
+        self.flush()
+
     # -- local save (accepted / rejected) x CONF_CHANGED for the same option -------------
     def event_touch(self, changed, suffix_for=None, suffix=""):
         for n in changed:
@@ -723,6 +882,10 @@ class Run(object):
                 self.flush()
             elif st["op"] == "save_event":
                 self.save_event(st)
+            elif st["op"] == "alias":
+                self.alias(st)
+            elif st["op"] == "held_edit":
+                self.held_edit(st)
             elif st["op"] == "cycle":
                 self.probe(st["opt"], st["name"], st["value"], "cycle")
                 self.flush()
